@@ -134,6 +134,8 @@ class Program:
             d = json.load(f)
         self.raw = d
         self.source = path
+        from .renames import normalise
+        self.rename_notes = normalise(d)
         self.crate = d["crate"]
         self.nonce = d.get("nonce")
         self.config = d.get("config")
